@@ -57,8 +57,9 @@ Consume == l' = l + 1
 
 \* ---- reset: next execution ----
 Reset == /\ Ev("reset") /\ Consume
+         \* c0 is a second reference to the promised client, present only in programs that ask for it (reset.h = "c0")
          /\ hs' = [h \in Handles |-> IF h \in {"c1", "c9"} THEN [st |-> "live", den |-> "k1"]
-                                     ELSE IF h = "c2" THEN [st |-> "live", den |-> "p1"]
+                                     ELSE IF h = "c2" \/ (h = "c0" /\ Tr[l].h = "c0") THEN [st |-> "live", den |-> "p1"]
                                      ELSE [st |-> "none", den |-> "NULL"]]
          /\ res' = [k \in Hooks |-> IF k \in Promises THEN "UNRES" ELSE "SETTLED"]
          /\ open' = [k \in Hooks |-> 0] /\ inbr' = [k \in Hooks |-> 0] /\ shut' = [k \in Hooks |-> 0]
